@@ -5,9 +5,9 @@ import json, os, re, subprocess, sys, tempfile, shutil
 from concurrent.futures import ThreadPoolExecutor
 
 ROOT = sys.argv[1]
-ids = sys.argv[2:] or sorted(d for d in os.listdir(ROOT) if re.match(r"^C\d\d[ab]$", d))
+ids = sys.argv[2:] or sorted(d for d in os.listdir(ROOT) if re.match(r"^C\d\d[a-z]$", d))
 ENV = dict(os.environ, GOFLAGS="-mod=mod", GOPROXY="off", GOSUMDB="off", GOTOOLCHAIN="local")
-SUITE = "go build ./... && go test -vet=off -count=1 ./workflow/... ./internal/... ./config/... ./loadfile/..."
+SUITE = "go build ./... && VERIF_REPO=$PWD /verif/bin/baseline"  # the pinned 534-test suite, compared with BASELINE.json
 
 
 def sh(cmd, cwd, timeout=600):
@@ -26,13 +26,13 @@ def one(sid):
     subprocess.run(["git", "-C", "/repo", "worktree", "add", "-q", "--detach", w, "HEAD"], check=True)
     res = {"id": sid}
     try:
-        demo = re.sub(r"/tmp/wt/C\d\d", w, meta["demo"])
-        demo = demo.split("   #")[0]
+        demo = re.sub(r"/tmp/wt2?/C\d\d", w, meta["demo"])
+        demo = demo.split("   #")[0].split("   (")[0]
         patch = os.path.join(d, "patch.diff")
         rc, out = sh("git apply %s" % patch, w)
         res["applies"] = rc == 0
         if rc == 0:
-            rc1, out1 = sh(SUITE, w, timeout=900)  # before any demonstration file is copied in
+            rc1, out1 = sh(SUITE, w, timeout=1800)  # before any demonstration file is copied in
             res["suite_with_change"] = "pass" if rc1 == 0 else "FAIL: " + out1[-400:]
             rc2, out2 = sh(demo, w)
             res["demo_with_change"] = "fail" if rc2 != 0 else "PASSES"
@@ -48,7 +48,7 @@ def one(sid):
     return res
 
 
-with ThreadPoolExecutor(6) as ex:
+with ThreadPoolExecutor(int(os.environ.get('CONFIRM_PAR', '6'))) as ex:
     for r in ex.map(one, ids):
         ok = r.get("applies") and r.get("suite_with_change") == "pass" and r.get("demo_with_change") == "fail" and r.get("demo_without_change") == "pass"
         print(r["id"], "CONFIRMED" if ok else "PROBLEM", {k: v for k, v in r.items() if k not in ("id", "demo_tail")} if not ok else "")
